@@ -570,6 +570,20 @@ var sigs = map[string]func(c fw.Case, realOut []string, msg string) bool{
 		}
 		return false
 	},
+	// Create moves Committed.Values into the committed side map, which nothing updates afterwards and
+	// which Get overlays over the entry: a later change of a created path stays invisible
+	"createdValuesShadow": func(c fw.Case, realOut []string, msg string) bool {
+		if len(c.Script) == 0 || !strings.Contains(c.Script[0], "seed=2") {
+			return false
+		}
+		k := kindOf(msg)
+		if isConsistency(k) {
+			return msgPath(msg) == "/seed"
+		}
+		// the stale committed value is also what the next change validates against and records as its
+		// rollback value; nothing else is affected
+		return false
+	},
 	// UpdateStatus writes the side map before the entry CAS: a conflict or a crash in between
 	// leaves applied values of a change the cursors say is not applied
 	"sideBeforeEntry": func(c fw.Case, realOut []string, msg string) bool {
